@@ -19,12 +19,14 @@ ReqClass(e) == IF e.n = 0 THEN "zero-length" ELSE IF tst.produced = 0 THEN "firs
 Req2(e, r) == /\ tst' = [zs |-> r[2], produced |-> tst.produced + e.n]
               /\ tlast' = Verdict(e, e.outcome = "ok" /\ e.out = r[1], ReqClass(e), IF e.outcome # "ok" THEN e.outcome ELSE "wrong-keystream")
 Req1(e) == Req2(e, Request(tst.zs, e.n))
+\* (a call whose derived IV puts an addition of the first initialisation round on the reduction boundary is its own class)
+Bnd(key, iv) == IF Len(key) = 16 /\ FirstRoundBoundary(key, iv) THEN ".add31-boundary" ELSE ""
 LenClass(len) == IF len = 0 THEN "len0" ELSE IF len % 32 = 0 THEN "len%32=0" ELSE IF len % 32 = 1 THEN "len%32=1" ELSE IF len % 32 = 31 THEN "len%32=31" ELSE "len-other"
 Eea1(e) == /\ tst' = tst
-           /\ tlast' = Verdict(e, e.outcome = "ok" /\ e.out = Eea(e.key, e.count, e.bearer, e.dir, e.len, e.msg), "eea." \o LenClass(e.len),
+           /\ tlast' = Verdict(e, e.outcome = "ok" /\ e.out = Eea(e.key, e.count, e.bearer, e.dir, e.len, e.msg), "eea." \o LenClass(e.len) \o Bnd(e.key, EeaIV(e.count, e.bearer, e.dir)),
                                IF e.outcome # "ok" THEN e.outcome ELSE "wrong-output")
 Eia1(e) == /\ tst' = tst
-           /\ tlast' = Verdict(e, e.outcome = "ok" /\ e.mac = Eia(e.key, e.count, e.bearer, e.dir, e.len, e.msg), "eia." \o LenClass(e.len),
+           /\ tlast' = Verdict(e, e.outcome = "ok" /\ e.mac = Eia(e.key, e.count, e.bearer, e.dir, e.len, e.msg), "eia." \o LenClass(e.len) \o Bnd(e.key, EiaIV(e.count, e.bearer, e.dir)),
                                IF e.outcome # "ok" THEN e.outcome ELSE "wrong-mac")
 Step(e) == IF e.op = "zuc.new" THEN New1(e)
            ELSE IF e.op = "zuc.req" THEN Req1(e)
